@@ -10,7 +10,7 @@
 From Coq Require Import Reals List ZArith Bool Lra.
 From Flocq Require Import Raux.
 From Alpaqa Require Import Num NumR Vec Prox ProxProofs SolverStatus SolverKernels StopChain StopChainProofs KktProofs
-                           Lbfgs Panoc PanocProofs Directions PanocDir PanocDirProofs.
+                           Lbfgs LbfgsProofs Panoc PanocProofs Directions PanocDir PanocDirProofs PanocDirLbfgs.
 Import ListNotations.
 Local Open Scope R_scope.
 
@@ -123,6 +123,17 @@ Section PANOCDIR.
       (L_init psi_grad_full grad_psi P x_in <> 0 -> exists L, γ * L = p_Lgamma P).
   Proof. exact (fun D ops d0 => panocD_inner_contract psi_grad_full psi_yhat grad_L grad_psi lb ub l1 D ops stop_req time_up P x_in y_in Σ errz_in ls_fuel d0). Qed.
 
+  (* provider invariants: a predicate that initialize establishes and update / apply / changed_γ / reset preserve holds for the provider
+     at the top of every pass with k > 0, i.e. at every call the loop makes after initialize *)
+  Theorem PANOCDIR_provider_invariant : forall (D : Type) (ops : dirops R D) (d0 : D) (Iv : D -> Prop),
+    (forall d y S γ x xh p g d', d_initialize D ops d y S γ x xh p g = Some d' -> Iv d') ->
+    (forall d γ γn x xn p pn g gn, Iv d -> Iv (snd (d_update D ops d γ γn x xn p pn g gn))) ->
+    (forall d γ x xh p g q b q' d', Iv d -> d_apply D ops d γ x xh p g q = Some (b, q', d') -> Iv d') ->
+    (forall d a b, Iv d -> Iv (d_changed_gamma D ops d a b)) ->
+    (forall d, Iv d -> Iv (d_reset D ops d)) ->
+    forall sD, ReachableD D ops d0 sD -> st_k (sd_st D sD) = 0%nat \/ Iv (sd_dir D sD).
+  Proof. exact (fun D ops d0 => reachableD_I psi_grad_full psi_yhat grad_L grad_psi lb ub l1 D ops stop_req time_up P x_in y_in Σ errz_in ls_fuel d0). Qed.
+
   (* ---------------- PANOCSolver<LBFGSDirection>: n, std::pow, all LBFGSParams and rescale_on_step_size_changes arbitrary ---------------- *)
   Section LBFGS.
     Variables (n : nat) (pw : R -> R -> R) (LP : Lbfgs.params R) (rescale : bool).
@@ -151,6 +162,17 @@ Section PANOCDIR.
         (L_init psi_grad_full grad_psi P x_in <> 0 -> exists L, γ * L = p_Lgamma P).
     Proof. exact (PANOCDIR_inner_contract Dl lbfgs lbfgs_unsized). Qed.
 
+    (* C09 composed with the loop: at every iteration k > 0 of every run, whatever happened before (accepted / rejected updates, resets,
+       step-size changes with or without rescaling), LBFGSDirection::apply fails iff the history is empty (then q = p) and otherwise
+       returns the dense BFGS inverse-Hessian operator of the stored pairs applied to p *)
+    Corollary PANOCDIR_LBFGS_direction_is_dense_bfgs : forall sD, ReachableD Dl lbfgs lbfgs_unsized sD -> (0 < st_k (sd_st Dl sD))%nat ->
+      let st := sd_dir Dl sD in
+      forall γ x xh p g q,
+        exists r, d_apply Dl lbfgs st γ x xh p g q = Some r /\
+          if is_empty st then r = (false, p, st)
+          else fst (fst r) = true /\ snd (fst r) = Hbfgs (pairs st) (doc_γ LP (pairs st) γ) p.
+    Proof. exact (lbfgs_direction_is_dense_bfgs psi_grad_full psi_yhat grad_L grad_psi lb ub l1 stop_req time_up P x_in y_in Σ errz_in ls_fuel n pw LP rescale). Qed.
+
     Corollary PANOCDIR_LBFGS_records_and_status : forall fuel oD, runD Dl lbfgs lbfgs_unsized fuel = DoneD Dl oD ->
       let o := od_out Dl oD in
       Forall Rec_ok (out_log o) /\ Chain (rev (out_log o)) /\
@@ -174,9 +196,17 @@ Print Assumptions PANOCDIR_records.
 Print Assumptions PANOCDIR_status_clauses.
 Print Assumptions PANOCDIR_exit.
 Print Assumptions PANOCDIR_inner_contract.
+Print Assumptions PANOCDIR_provider_invariant.
+Print Assumptions PANOCDIR_LBFGS_direction_is_dense_bfgs.
 Print Assumptions PANOCDIR_LBFGS_invariant_at_every_stop_check.
 Print Assumptions PANOCDIR_LBFGS_exit_contract.
 Print Assumptions PANOCDIR_LBFGS_records_and_status.
+
+(* StructuredLBFGSDirection's index set J over R = the C15 model of eval_inactive_indices_res_lna *)
+Theorem PANOCDIR_STRUCT_index_set_is_C15_model : forall (lb ub : list (option R)) l1 γ x g,
+  inactive_indices_x lb ub l1 γ x g = inactive_indices lb ub l1 γ x g.
+Proof. exact inactive_indices_x_is_C15_model. Qed.
+Print Assumptions PANOCDIR_STRUCT_index_set_is_C15_model.
 
 (* non-vacuity: `runD ... = DoneD oD` and `ReachableD ...` are satisfiable over R for PANOC<LBFGSDirection>
    (constant oracles, max_iter = 0: the run is the initialisation, one stop check and the exit block) *)
